@@ -107,3 +107,27 @@ pub fn prepare(def: &DefSpec) -> Result<Prepared, PrepError> {
     let prio = graph.leaves.iter().map(|l| l.priority).collect();
     Ok(Prepared { rust, output: cap.output, graph, reflex, prio })
 }
+
+/// Raw outcome of the derive on a definition, whatever the verdict.
+pub struct DeriveOut {
+    pub rust: String,
+    pub panic: Option<String>,
+    pub output: String,
+    pub errors: Vec<String>,
+    pub graph: Option<GraphDump>,
+}
+
+pub fn derive_rust(rust: String) -> DeriveOut {
+    match derive_src(&rust) {
+        Err(e) => DeriveOut { rust, panic: Some(format!("harness: {e}")), output: String::new(), errors: vec![], graph: None },
+        Ok(Derived::Panicked(m)) => DeriveOut { rust, panic: Some(m), output: String::new(), errors: vec![], graph: None },
+        Ok(Derived::Done(c)) => {
+            let errors = compile_errors(&c.output);
+            DeriveOut { rust, panic: None, output: c.output, errors, graph: c.graph }
+        }
+    }
+}
+
+pub fn derive_def(def: &DefSpec) -> DeriveOut {
+    derive_rust(render(def))
+}
